@@ -80,6 +80,11 @@ type gen struct {
 	// generator has nothing to render for them - seeded change C17-l) that struct fields may use
 	ifaceTypes []string
 	ifaceDecls int
+	// declarations are spread over several files of the package (types.go + types_<k>.go): the order in which the
+	// parser registers files differs from load to load, so nothing may be ordered by token.Pos across files
+	// (seeded change C04-m: dependent types generated "in declaration order" by Obj().Pos())
+	extra   map[string]*strings.Builder
+	holders int
 }
 
 func (g *gen) name(p string) string {
@@ -226,9 +231,22 @@ func (g *gen) generate(pkg string) string {
 		b.WriteString("// +gengo:deepcopy\n")
 	}
 	fmt.Fprintf(&b, "package %s\n\nimport (\n\t\"fmt\"\n\t\"io\"\n\t\"time\"\n)\n\nvar (\n\t_ fmt.Stringer\n\t_ io.Reader\n\t_ time.Duration\n)\n\n", pkg)
+	g.extra = map[string]*strings.Builder{}
 	add := func(d *tdecl) {
 		g.decls = append(g.decls, d)
-		b.WriteString(d.src)
+		k := g.r.Intn(6)
+		if k == 0 {
+			b.WriteString(d.src)
+			return
+		}
+		fn := fmt.Sprintf("types_%d.go", k)
+		eb := g.extra[fn]
+		if eb == nil {
+			eb = &strings.Builder{}
+			fmt.Fprintf(eb, "package %s\n\nimport (\n\t\"fmt\"\n\t\"io\"\n\t\"time\"\n)\n\nvar (\n\t_ fmt.Stringer\n\t_ io.Reader\n\t_ time.Duration\n)\n\n", pkg)
+			g.extra[fn] = eb
+		}
+		eb.WriteString(d.src)
 	}
 	// named scalars and maps
 	for i := 0; i < 2; i++ {
@@ -288,6 +306,35 @@ func (g *gen) generate(pkg string) string {
 	ns := 3 + g.r.Intn(6)
 	for i := 0; i < ns; i++ {
 		add(g.structDecl(3))
+	}
+	// a holder that sorts BEFORE the structs it holds by value (dispatch is by sorted name: they are then generated as
+	// its dependencies, in the order the generator walks them) - several distinct ones, declared in different files
+	var held []*tdecl
+	for _, d := range g.decls {
+		if d.kind == "struct" && d.depth < 3 {
+			held = append(held, d)
+		}
+	}
+	if len(held) >= 2 {
+		g.r.Shuffle(len(held), func(i, j int) { held[i], held[j] = held[j], held[i] })
+		if len(held) > 5 {
+			held = held[:5]
+		}
+		t := &tdecl{name: g.name("AAHolder"), kind: "struct", nontriv: true}
+		var hb strings.Builder
+		hb.WriteString(g.tagLine(t, false))
+		fmt.Fprintf(&hb, "type %s struct {\n\tL []int\n", t.name)
+		for i, d := range held {
+			fmt.Fprintf(&hb, "\tH%d %s\n", i, d.name)
+			if d.depth+1 > t.depth {
+				t.depth = d.depth + 1
+			}
+		}
+		hb.WriteString("}\n\n")
+		t.src = hb.String()
+		t.inst = t.name
+		add(t)
+		g.holders++
 	}
 	return b.String()
 }
@@ -557,6 +604,12 @@ func (p *prop) runBatch(c core.Case, w *core.Worker, res *core.Result, r *rand.R
 		pks = append(pks, pk{name, src, g.decls})
 		res.Count("same_package_interface_types_declared", int64(g.ifaceDecls))
 		m.MustWrite(filepath.Join(name, "types.go"), src)
+		for fn, eb := range g.extra {
+			m.MustWrite(filepath.Join(name, fn), eb.String())
+			pks[len(pks)-1].src += "\n// ---- " + fn + "\n" + eb.String()
+			res.Inc("extra_source_files_per_package")
+		}
+		res.Count("holders_sorting_before_their_dependencies", int64(g.holders))
 		entries = append(entries, "./"+name)
 	}
 	gens := []specgen.GenSpec{{Name: "deepcopy", Real: true}}
